@@ -128,6 +128,44 @@ def run(chk):
     rules, gh = load()
     ob_lax_total(chk, rules, gh, 12 if chk.tier == 'quick' else 18)
     ob_literals(chk, rules, gh)
-    P = chk.program(('core',))
+    P = chk.program(('core', 'lib'))
     ob_parse_literal(chk, P)
+    ob_block_structure(chk, P, 3 if chk.tier == 'quick' else 4)
     chk.trusted |= {'pest implements PEG semantics as documented', 'pegsmt encoder'}
+
+
+# ============================================================================ block structure: real TagBlock / Tag::parse_pair / comment / raw over element streams
+import itertools
+from checks.pmodel import *
+
+BLOCK_ALPHABET = ['raw', 'expr', 'invalid', 'assign', 'if', 'endif', 'else', 'comment', 'endcomment', 'raw_tag', 'endraw', 'unknown']
+
+
+def ob_block_structure(chk, P, n):
+    with chk.obligation('parse/block-structure', 'parsing a stream of top-level elements (text, output tags, tags, blocks, invalid tokens) with the real block machinery never panics and returns a template '
+                        'exactly when the blocks are balanced and known; unclosed or mis-nested blocks, stray end tags, unknown tags and invalid tokens are errors',
+                        {'streams': f'every sequence of up to {n} elements over {BLOCK_ALPHABET} (then end of input)', 'nesting': 'if / comment / raw blocks nested through the real TagBlock',
+                         'plugins': 'real CommentBlock and RawBlock; abstract well-behaved block `if`; abstract tags (may reject their arguments)'}) as ob:
+        ex = Executor(P, models_with(parser_stubs() + registers_models())); ex.seed = chk.seed; ex.max_steps = 60000
+        ob.stubs += ['pest Pair/Span/Position stubs over element streams of the shape the grammar guarantees (E3)', 'Exp::parse, InvalidLiquidToken::parse, pest error construction: outcome stubs']
+        for ln in range(0, n + 1):
+            for kinds in itertools.product(BLOCK_ALPHABET, repeat=ln):
+                want = py_reference(list(kinds))
+                st = State()
+                for s2, kind, val in run_parse(ex, P, st, list(kinds)):
+                    ob.paths += 1; ob.reached()
+                    bad = None
+                    if kind == 'panic': bad = f'panics: {val}'
+                    elif want == 'err' and val[0] != 'err': bad = 'accepted, expected an error'
+                    elif want != 'err' and val[0] == 'err' and not s2.env.get('stub_failed'): bad = 'rejected although every block is balanced'
+                    elif want != 'err' and val[0] == 'ok' and len(val[1]) != len(want): bad = f'{len(val[1])} top-level renderables, expected {len(want)}'
+                    if bad:
+                        src = ''.join(ELEMENTS[k][1] for k in kinds).replace('{%if x%}', '{% if x %}').replace('{{x}}', '{{ 1 }}')
+                        sc = {'kind': 'template', 'template': src}
+                        if kind == 'panic': conf = lambda r: r.get('outcome') in ('panic', 'crash')
+                        elif want == 'err': conf = lambda r: r.get('stage') != 'parse' or r.get('outcome') != 'err'
+                        else: conf = lambda r: r.get('stage') == 'parse'
+                        role = 'parse/panic/' + ('unclosed-inside-comment' if 'comment' in kinds else 'other') if kind == 'panic' else 'parse/accepts-unbalanced' if want == 'err' else 'parse/rejects-balanced'
+                        ob.violation(role, f'{src!r}: {bad}', {'elements': list(kinds)}, sc, conf)
+            ob.sample({'stream_len': ln})
+        ob.absorb(ex)
